@@ -10,6 +10,8 @@ Line-protocol front end of the C06 model.
   checker on the named effect program of `Model/Elements.lean` and the observable footprint of
   running it (the footprint does not depend on the input value or on the meaning of the array
   operations; the driver runs it on a fixed input with a fixed interpretation).
+* `C06 internal NAME` → `ok safe=B memo=a,b|- scratch=c|-` : verdict of `safeInternal` on the named
+  program with element-internal cells and the attribute names of its memo cells / scratch buffers.
 * `C06 denote TERM @ [re,im,re,im,…]` → `ok par=lin|conj|mixed [re,im,…]` : exact evaluation of an
   operator term at Gaussian rationals. `TERM` is prefix notation over tokens:
   `id | zero N | mul CLIST | mat NROWS CLIST | add T T | sub T T | comp T T | scale RE IM T | conj`.
@@ -99,6 +101,12 @@ def step (st : St) : List String → St × String
       let o := call demoSem p demoIn
       let w := if o.writes.isEmpty then "-" else ",".intercalate (o.writes.map showAttr)
       (st, s!"ok safe={showBool (safe p)} retIsInput={showBool o.retIsInput} retShares={showBool o.retSharesBuf} writes={w}")
+    | none => (st, "bad-op")
+  | ["internal", name] =>
+    match HcipyVerif.Elements.internalByName name with
+    | some (p, memo, scratch) =>
+      let sh := fun (l : List String) => if l.isEmpty then "-" else ",".intercalate l
+      (st, s!"ok safe={showBool (safeInternal p)} memo={sh memo} scratch={sh scratch}")
     | none => (st, "bad-op")
   | "denote" :: rest =>
     match parseTerm (rest.length + 1) rest with
